@@ -500,7 +500,11 @@ def _append_mcmt_gate(circuit, col_qubits_new, n_qubits, row_qubits_new, unitary
         else:
             diffqubit = m
     qubits_list.append(diffqubit)
-    circuit.append(MCMT(gate, n_qubits - 1, 1), qubits_list)
+    if n_qubits == 1:
+        # A single qubit has no controls: the rotation is applied directly.
+        circuit.append(gate, qubits_list)
+    else:
+        circuit.append(MCMT(gate, n_qubits - 1, 1), qubits_list)
 
 
 def _row_and_col_qubits(col, n_qubits, row):
